@@ -1542,6 +1542,55 @@ func (in *inliner) expandG(list []ast.Stmt, i int, caller *ast.FuncDecl) ([]ast.
 			}
 		}
 		if call == nil {
+			// return f(h(a…)): the helper call is taken out into a temporary in front of the return
+			if len(s.Results) >= 1 {
+				var inner *ast.CallExpr
+				n := 0
+				for _, r := range s.Results {
+					ast.Inspect(r, func(m ast.Node) bool {
+						if _, isLit := m.(*ast.FuncLit); isLit {
+							return false
+						}
+						if c, ok := m.(*ast.CallExpr); ok && in.helperOf(c) != nil {
+							inner = c
+							n++
+						}
+						return true
+					})
+				}
+				if n == 1 && in.singleResult(inner) {
+					// everything else in the results must be side-effect free (evaluation order)
+					okPure := true
+					for _, r := range s.Results {
+						ast.Inspect(r, func(m ast.Node) bool {
+							if c, ok := m.(*ast.CallExpr); ok && c != inner && !p.pureExpr(c) {
+								okPure = false
+							}
+							return true
+						})
+					}
+					if okPure {
+						tmpName := fmt.Sprintf("ret_h%d", inlLabelSeq+1)
+						tv := p.Info.Types[inner]
+						tobj := types.NewVar(inner.Pos(), p.Pkg.Types, tmpName, tv.Type)
+						types.NewScope(nil, inner.Pos(), inner.End(), "expansion").Insert(tobj)
+						def := &ast.Ident{Name: tmpName, NamePos: inner.Pos()}
+						p.Info.Defs[def] = tobj
+						asg := &ast.AssignStmt{Lhs: []ast.Expr{def}, Tok: token.DEFINE, TokPos: inner.Pos(), Rhs: []ast.Expr{inner}}
+						nr := &ast.ReturnStmt{Return: s.Return}
+						for _, r := range s.Results {
+							c2 := &cloner{p: p, memo: map[ast.Node]ast.Node{}}
+							rc := c2.node(r).(ast.Expr)
+							rc = replaceCall(p, rc, inner, c2, tmpName, tobj, tv.Type)
+							nr.Results = append(nr.Results, rc)
+						}
+						sub := append([]ast.Stmt{asg, nr}, list[i+1:]...)
+						if g, used := in.expandG(sub, 0, caller); used == 1 {
+							return append(g, nr), 1
+						}
+					}
+				}
+			}
 			return nil, 0
 		}
 	case *ast.ExprStmt:
@@ -1872,6 +1921,65 @@ func (in *inliner) expandG(list []ast.Stmt, i int, caller *ast.FuncDecl) ([]ast.
 	out := append([]ast.Stmt{}, decls...)
 	out = append(out, pre...)
 	out = append(out, body...)
+	// a short straight continuation that ends in a return (x = h(); return f(x)) is duplicated to every jump instead
+	if usedGoto && follow == nil {
+		rest := list[i+1:]
+		okRest := len(rest) >= 1 && len(rest) <= 2
+		for k, r := range rest {
+			switch r.(type) {
+			case *ast.ReturnStmt:
+				if k != len(rest)-1 {
+					okRest = false
+				}
+			case *ast.AssignStmt, *ast.ExprStmt, *ast.IncDecStmt:
+				if k == len(rest)-1 {
+					okRest = false
+				}
+			default:
+				okRest = false
+			}
+		}
+		if okRest {
+			var dup func(l []ast.Stmt) []ast.Stmt
+			dup = func(l []ast.Stmt) []ast.Stmt {
+				var o []ast.Stmt
+				for _, s := range l {
+					if b, ok := s.(*ast.BranchStmt); ok && b.Tok == token.GOTO && b.Label != nil && b.Label.Name == label {
+						for _, r := range rest {
+							nb := plain(r).(ast.Stmt)
+							shiftPos(nb, b.Pos()-r.Pos())
+							o = append(o, nb)
+						}
+						continue
+					}
+					o = append(o, s)
+				}
+				return o
+			}
+			var holders2 []ast.Node
+			for _, b := range out {
+				ast.Inspect(b, func(n ast.Node) bool {
+					switch n.(type) {
+					case *ast.BlockStmt, *ast.CaseClause, *ast.CommClause:
+						holders2 = append(holders2, n)
+					}
+					return true
+				})
+			}
+			for _, n := range holders2 {
+				switch x := n.(type) {
+				case *ast.BlockStmt:
+					x.List = dup(x.List)
+				case *ast.CaseClause:
+					x.Body = dup(x.Body)
+				case *ast.CommClause:
+					x.Body = dup(x.Body)
+				}
+			}
+			out = dup(out)
+			usedGoto = false
+		}
+	}
 	if usedGoto {
 		out = append(out, &ast.LabeledStmt{Label: &ast.Ident{Name: label, NamePos: st.End()}, Colon: st.End(), Stmt: &ast.EmptyStmt{Semicolon: st.End(), Implicit: true}})
 	}
@@ -2433,4 +2541,70 @@ func (in *inliner) expandGo(gs *ast.GoStmt, caller *ast.FuncDecl) ast.Stmt {
 	ncall := &ast.CallExpr{Fun: fl, Lparen: gs.Call.Lparen, Rparen: gs.Call.Rparen}
 	p.Info.Types[ncall] = types.TypeAndValue{Type: types.NewTuple()}
 	return &ast.GoStmt{Go: gs.Go, Call: ncall}
+}
+
+func (in *inliner) singleResult(call *ast.CallExpr) bool {
+	h := in.helperOf(call)
+	return h != nil && h.Type.Results != nil && len(h.Type.Results.List) == 1 && len(h.Type.Results.List[0].Names) <= 1
+}
+
+// replaceCall: in the clone rc of an expression that contained the call orig, the clone of orig becomes the temporary.
+func replaceCall(p *GoProg, rc ast.Expr, orig *ast.CallExpr, c2 *cloner, name string, obj types.Object, t types.Type) ast.Expr {
+	target, _ := c2.memo[orig].(*ast.CallExpr)
+	mk := func(pos token.Pos) ast.Expr {
+		id := &ast.Ident{Name: name, NamePos: pos}
+		p.Info.Uses[id] = obj
+		p.Info.Types[id] = types.TypeAndValue{Type: t}
+		return id
+	}
+	if target == nil {
+		return rc
+	}
+	if ast.Unparen(rc) == ast.Expr(target) {
+		return mk(rc.Pos())
+	}
+	p.replaceExprs(rc, func(e ast.Expr) ast.Expr {
+		if e == ast.Expr(target) {
+			return mk(e.Pos())
+		}
+		return nil
+	})
+	return rc
+}
+
+// replaceExprs replaces expression children for which repl returns non-nil.
+func (p *GoProg) replaceExprs(root ast.Node, repl func(e ast.Expr) ast.Expr) {
+	var walk func(v reflect.Value)
+	walk = func(v reflect.Value) {
+		switch v.Kind() {
+		case reflect.Ptr:
+			if v.IsNil() {
+				return
+			}
+			if _, ok := v.Interface().(ast.Node); !ok {
+				return
+			}
+			walk(v.Elem())
+		case reflect.Interface:
+			if v.IsNil() {
+				return
+			}
+			if e, ok := v.Interface().(ast.Expr); ok {
+				if ne := repl(e); ne != nil && v.CanSet() {
+					v.Set(reflect.ValueOf(ne))
+					return
+				}
+			}
+			walk(v.Elem())
+		case reflect.Struct:
+			for i := 0; i < v.NumField(); i++ {
+				walk(v.Field(i))
+			}
+		case reflect.Slice:
+			for i := 0; i < v.Len(); i++ {
+				walk(v.Index(i))
+			}
+		}
+	}
+	walk(reflect.ValueOf(root))
 }
